@@ -11,9 +11,9 @@ New(length, prefix, vpassword, vindex, vpath, threads) ==
 \* fail: <<request numbers that the shim refuses>>, from: refuse every request >= from (-1: none)
 NewIn(c, fail, from) ==
   [new |-> c, argv |-> NewArgv(c), env |-> [HDW_NONE |-> ""], timeout_ms |-> 120000,
-   \* once a failure was injected every later request is delayed by 250 ms (see Vanity!PromptExit)
-   shim |-> IF from >= 0 THEN [fail_at |-> fail, fail_from |-> from, slow_after_fail_ms |-> 250]
-            ELSE [fail_at |-> fail, slow_after_fail_ms |-> 250]]
+   \* once a failure was injected every later request is delayed by 500 ms (see Vanity!PromptExit)
+   shim |-> IF from >= 0 THEN [fail_at |-> fail, fail_from |-> from, slow_after_fail_ms |-> 500]
+            ELSE [fail_at |-> fail, slow_after_fail_ms |-> 500]]
 NItem(fam, c, fail, from) == [i |-> 0, op |-> "cli.new", fam |-> fam, in |-> NewIn(c, fail, from)]
 NSItem(fam, sid, c, rel) == [i |-> 0, op |-> "cli.new", fam |-> fam, sid |-> sid, in |-> NewIn(c, <<>>, -1) @@ [rel |-> rel]]
 
